@@ -270,7 +270,9 @@ uint64_t vt_rand_dbits(vrng *r)
     uint32_t c = vrn(r, 100);
     if (c < 30) return special[vrn(r, sizeof special / sizeof special[0])];
     if (c < 60) return vr64(r);
-    double d = ((double)((int64_t)vrn(r, 200001) - 100000)) / (double)(1 + vrn(r, 1000));
+    double num = (double)((int64_t)vrn(r, 200001) - 100000);     /* two statements: the order of the draws must not depend on the compiler */
+    double den = (double)(1 + vrn(r, 1000));
+    double d = num / den;
     uint64_t b; memcpy(&b, &d, 8);
     return b;
 }
